@@ -111,9 +111,11 @@ func (x *c02Run) execChild() (string, bool) {
 
 func genC02(r *Rng, idx int) *C02Case {
 	cs := &C02Case{Cfg: genCfg(r, 0.1)}
+	cs.Cfg.apply() // Source() during generation must already use this case's delimiters
 	if idx%8 == 0 {
 		cs.EnvOnly = true
 		cs.Cfg.Delims = nil // cmd/liquid has no option for delimiters
+		cs.Cfg.apply()
 		cs.Env = &Env{}
 		for _, n := range []string{"s", "t", "u", "w"} {
 			cs.Env.Names = append(cs.Env.Names, n)
